@@ -33,6 +33,7 @@ func runC05(c *core.Ctx) {
 	h.replyAfterPersist("C05.4 reply-after-persist")
 	c.Clause("C05.5 candidate persists term+1 and its self vote before any vote request is sent")
 	h.selfVoteBeforeCampaign("C05.5 self-vote-first")
+	h.storageErrorsSurface("C05.6 storage-errors-surface", storageErrExempt)
 }
 
 // setterPersistThenPublish: in setTerm / setVotedFor every store to
